@@ -334,7 +334,16 @@ def d(ck: Check) -> None:
     probs = []
     rets = [r for r in own_walk(fm.f.node) if isinstance(r, ast.Return) and r.value is not None]
     col = se.collection(rets[-1].value, fm.cfgn(rets[-1])) if rets else None
+    net0 = net
     net = se.val(ast.Name(net, ast.Load()), fm.cfgn(rets[-1])) if rets else net   # the graph the function works on
+    # ... which is the given network, or the symbolic graph of exactly that network
+    for n_ in own_walk(fm.f.node):
+        if isinstance(n_, ast.Assign) and len(n_.targets) == 1 and text(n_.targets[0]) == net0:
+            v_ = n_.value
+            okg = isinstance(v_, ast.Call) and callee_name(v_) == "AsynchronousGraph" and len(v_.args) == 1 and text(v_.args[0]) == net0
+            if not okg:
+                probs.append(f"line {n_.lineno}: the LDOIs are computed on `{text(v_)[:60]}`, not on the given network: a transformed "
+                             f"network (constants inlined, inputs fixed) has other strict percolations than the one that was asked about")
     V = f"elem({net}.network_variable_names())"
     FN = f"{net}.mk_update_function({V})"
     notconst = logic.And(logic.Not(logic.B(f"T:{FN}.is_true()")), logic.Not(logic.B(f"T:{FN}.is_false()")))
